@@ -1,9 +1,142 @@
 import TaurexModel.Proto
+import TaurexModel.Priors
 
 namespace Taurex.Ops.C08
-open Taurex.Proto
+open Taurex.Proto Taurex.Priors
 
-/-- operations of the C08 model served by `driver_c08` (filled in by the C08 check) -/
-def ops : List Op := []
+/-- inverse of `harness.common.S` -/
+def unescAux : List Char → List Char
+  | '%' :: '2' :: '0' :: r => ' ' :: unescAux r
+  | '%' :: '0' :: 'A' :: r => '\n' :: unescAux r
+  | '%' :: '0' :: '9' :: r => '\t' :: unescAux r
+  | '%' :: '2' :: '5' :: r => '%' :: unescAux r
+  | c :: r => c :: unescAux r
+  | [] => []
+
+def unesc (s : String) : String := if s == "%e" then "" else String.ofList (unescAux s.toList)
+
+def esc (s : String) : String :=
+  if s == "" then "%e"
+  else String.join (s.toList.map (fun c =>
+    if c == '%' then "%25" else if c == ' ' then "%20" else if c == '\n' then "%0A" else if c == '\t' then "%09"
+    else String.singleton c))
+
+def str : P String := do
+  let t ← tok
+  pure (unesc t)
+
+/-- constructor call: 0 `Uniform(bounds=(a,b))` 1 `LogUniform(bounds=(a,b))` 2 `LogUniform(lin_bounds=(a,b))`
+    3 `Gaussian(mean=a,std=b)` 4 `LogGaussian(mean=a,std=b,lin_mean=?,lin_std=?)`
+    5 default prior of `compile_params` for mode `m` (0 linear / 1 log) and bounds `(a,b)` -/
+def ctorP : P (Option (Prior Float)) := do
+  let k ← nat
+  match k with
+  | 0 => do let a ← flt; let b ← flt; pure (some (mkUniform a b))
+  | 1 => do let a ← flt; let b ← flt; pure (some (mkLogUniform a b))
+  | 2 => do let a ← flt; let b ← flt; pure (mkLogUniformLin a b)
+  | 3 => do let a ← flt; let b ← flt; pure (some (mkGaussian a b))
+  | 4 => do
+    let a ← flt; let b ← flt
+    let lm ← optOf flt
+    let ls ← optOf flt
+    pure (mkLogGaussian a b lm ls)
+  | 5 => do
+    let m ← nat
+    let a ← flt; let b ← flt
+    pure (defaultPrior (if m == 0 then FitMode.linear else FitMode.log) a b)
+  | _ => failure
+
+def kindOf : Prior Float → Nat × Float × Float
+  | .uniform a b => (0, a, b)
+  | .logUniform a b => (1, a, b)
+  | .gaussian a b => (2, a, b)
+  | .logGaussian a b => (3, a, b)
+
+/-- `kind mode a b lo hi samples backs` -/
+def fPriorEval (p : Prior Float) (z10 z90 : Float) (us zs xs : List Float) : String :=
+  let ppfB : Float → Float := fun u => if u == 0.1 then z10 else z90
+  let (lo, hi) := p.boundaries ppfB
+  let (k, a, b) := kindOf p
+  let samples := List.zipWith (fun u z => p.sample (fun _ => z) u) us zs
+  let backs := xs.map p.back
+  let m : Nat := if p.mode = PriorMode.log then 1 else 0
+  s!"{k} {m} {fF a} {fF b} {fF lo} {fF hi} {fList fF samples} {fList fF backs}"
+
+/-- `c08.prior <ctor> z10 z90 us zs xs` → `0` when the constructor raises, else `1` + evaluation;
+    `zs[i]` is `ndtri(us[i])` -/
+def priorOp (args : List String) : Option String :=
+  run (do
+    let p ← ctorP
+    let z10 ← flt
+    let z90 ← flt
+    let us ← listOf flt
+    let zs ← listOf flt
+    let xs ← listOf flt
+    match p with
+    | none => pure "0"
+    | some p => pure ("1 " ++ fPriorEval p z10 z90 us zs xs)) args
+
+def fVal (f : String → String) : ArgVal String → String
+  | .num x => "0 " ++ fList f [x]
+  | .tuple xs => "1 " ++ fList f xs
+  | .list xs => "2 " ++ fList f xs
+
+def fCall (c : Call String) : String :=
+  esc c.fn ++ " " ++ fList (fun a => esc a.1 ++ " " ++ fVal esc a.2) c.args
+
+/-- `c08.parse text` → `0` (rejected) or `1 fn args canonical-text reparsed-equal` -/
+def parseOp (args : List String) : Option String :=
+  run (do
+    let s ← str
+    match parsePrior s with
+    | none => pure "0"
+    | some c =>
+      let t := printPrior c
+      let again : Bool := match parsePrior t with
+        | some c' => decide (c' = c)
+        | none => false
+      pure ("1 " ++ fCall c ++ " " ++ esc t ++ " " ++ fB again)) args
+
+def valP {β : Type} (p : P β) : P (ArgVal β) := do
+  let k ← nat
+  let xs ← listOf p
+  match k, xs with
+  | 0, [x] => pure (.num x)
+  | 1, xs => pure (.tuple xs)
+  | 2, xs => pure (.list xs)
+  | _, _ => failure
+
+def callP {β : Type} (p : P β) : P (Call β) := do
+  let fn ← str
+  let as ← listOf (do let k ← str; let v ← valP p; pure (k, v))
+  pure ⟨fn, as⟩
+
+/-- `c08.print fn args` → canonical text of a call whose numbers are literal tokens -/
+def printOp (args : List String) : Option String :=
+  run (do
+    let c ← callP str
+    pure (esc (printPrior c))) args
+
+/-- `c08.create z10 z90 half quarter fn args us zs xs` → code (0 ok, 1 unknown class, 2 bad keyword, 3 domain error,
+    4 unsupported shape) and, when ok, the evaluation as in `c08.prior` -/
+def createOp (args : List String) : Option String :=
+  run (do
+    let z10 ← flt
+    let z90 ← flt
+    let half ← flt
+    let quarter ← flt
+    let c ← callP flt
+    let us ← listOf flt
+    let zs ← listOf flt
+    let xs ← listOf flt
+    match createPrior half quarter c with
+    | .ok p => pure ("0 " ++ fPriorEval p z10 z90 us zs xs)
+    | .unknownKlass => pure "1"
+    | .badKeyword => pure "2"
+    | .domain => pure "3"
+    | .unsupported => pure "4") args
+
+def ops : List Op :=
+  [("c08.prior", priorOp), ("c08.parse", parseOp), ("c08.print", printOp), ("c08.create", createOp)]
 
 end Taurex.Ops.C08
